@@ -711,6 +711,240 @@ func (A *audit) foundImpliesNonEmpty(fn *ssa.Function) bool {
 	return true
 }
 
+// auditPanicSites: the panic-site audit of R06.1 over the given functions
+// (shared with C16 for the ECDSA verification path: a malformed signature is
+// answered with a verification error, not a fault).
+func (A *audit) auditPanicSites(rule string, fns []*ssa.Function, mkKey func(*ssa.Function, string, string) string, counts map[string]int) {
+	r, P := A.r, A.P
+	for _, fn := range fns {
+		hasRecover := fn.Recover != nil
+		for _, b := range fn.Blocks {
+			for _, in := range b.Instrs {
+				switch in := in.(type) {
+				case *ssa.TypeAssert:
+					if in.CommaOk {
+						continue
+					}
+					counts["typeassert"]++
+					xt := P.terms.of(in.X)
+					o := r.ob(rule, mkKey(fn, "typeassert", shortType(in.AssertedType)+"<-"+xt.String()), fn, in, "type assertion without comma-ok is dominated by a successful check of the same value and type")
+					want := Fact{&Term{Op: "res", S: "1", Args: []*Term{{Op: "typeassert", S: shortType(in.AssertedType) + ",ok", Args: []*Term{xt}}}}, true}
+					fs := P.factsBefore(in)
+					switch {
+					case fs.has(want):
+						o.ok("fact "+want.String(), true)
+					case hasRecover:
+						o.ok("function recovers from panics (defer+recover)", true)
+					default:
+						o.fail("x.(T) on " + xt.String() + " with no dominating comma-ok assertion / type-switch arm / checking helper on the same value")
+					}
+				case *ssa.IndexAddr:
+					if pt, ok := in.X.Type().Underlying().(*types.Pointer); ok {
+						arr := pt.Elem().Underlying().(*types.Array)
+						if c, ok := constIntOf(in.Index); ok && c >= 0 && c < arr.Len() {
+							continue
+						}
+					}
+					counts["index"]++
+					xt := P.terms.of(in.X)
+					o := r.ob(rule, mkKey(fn, "index", xt.String()+"["+P.terms.of(in.Index).String()+"]"), fn, in, "index is within bounds on every path")
+					ok, why := A.indexSafe(in.X, in.Index, in)
+					if !ok && hasRecover {
+						ok, why = true, "function recovers from panics"
+					}
+					o.check(ok, why, why)
+				case *ssa.Index:
+					if arr, ok := in.X.Type().Underlying().(*types.Array); ok {
+						if c, ok := constIntOf(in.Index); ok && c >= 0 && c < arr.Len() {
+							continue
+						}
+					}
+					counts["index"]++
+					xt := P.terms.of(in.X)
+					o := r.ob(rule, mkKey(fn, "index", xt.String()+"["+P.terms.of(in.Index).String()+"]"), fn, in, "index is within bounds on every path")
+					ok, why := A.indexSafe(in.X, in.Index, in)
+					o.check(ok, why, why)
+				case *ssa.Lookup:
+					if _, isMap := in.X.Type().Underlying().(*types.Map); isMap {
+						continue
+					}
+					counts["index"]++
+					xt := P.terms.of(in.X)
+					o := r.ob(rule, mkKey(fn, "index", xt.String()+"["+P.terms.of(in.Index).String()+"]"), fn, in, "string index is within bounds on every path")
+					ok, why := A.indexSafe(in.X, in.Index, in)
+					o.check(ok, why, why)
+				case *ssa.Slice:
+					if _, isArrPtr := in.X.Type().Underlying().(*types.Pointer); isArrPtr && in.Low == nil && in.High == nil && in.Max == nil {
+						continue
+					}
+					counts["slice"]++
+					xt := P.terms.of(in.X)
+					lo, hi := "", ""
+					if in.Low != nil {
+						lo = P.terms.of(in.Low).String()
+					}
+					if in.High != nil {
+						hi = P.terms.of(in.High).String()
+					}
+					o := r.ob(rule, mkKey(fn, "slice", xt.String()+"["+lo+":"+hi+"]"), fn, in, "re-slice bounds are within the slice on every path")
+					ok, why := A.sliceSafe(in)
+					if !ok && hasRecover {
+						ok, why = true, "function recovers from panics"
+					}
+					o.check(ok, why, why)
+				case *ssa.MapUpdate:
+					counts["mapupdate"]++
+					mt := P.terms.of(in.Map)
+					A.mapWrite(fn, in, mt, mkKey)
+				case *ssa.MakeSlice:
+					if _, ok := constIntOf(in.Len); ok {
+						continue
+					}
+					counts["makeslice"]++
+					lt := P.terms.of(in.Len)
+					o := r.ob(rule, mkKey(fn, "makeslice", lt.String()), fn, in, "make with a computed length: the length is non-negative and not larger than the capacity")
+					okLen := nonNeg(lt)
+					why := "length " + lt.String() + " is non-negative by construction"
+					fs := P.factsBefore(in)
+					if !okLen && lt.Op == "binop" && lt.S == "-" {
+						// a - b under b < a (here, or at every caller of an unexported helper)
+						if A.diffNonNegCtx(fn, lt, fs, 0) {
+							okLen, why = true, "length "+lt.String()+" under the dominating comparison of its operands"
+						}
+					}
+					if !okLen && A.geCtx(fn, lt, fs, 0) {
+						okLen, why = true, "length "+lt.String()+" >= 0 follows from the dominating comparisons"
+					}
+					if okLen && in.Cap != in.Len && A.geCtx(fn, tSub(P.terms.of(in.Cap), lt), fs, 0) {
+						// capacity >= length by the same reasoning
+					} else if okLen && in.Cap != in.Len {
+						ct := P.terms.of(in.Cap)
+						// cap must be >= len: len = cap - x with x >= 0
+						if !(lt.Op == "binop" && lt.S == "-" && lt.Args[0].eq(ct) && nonNeg(lt.Args[1])) && !ct.eq(lt) {
+							okLen, why = false, "capacity "+ct.String()+" is not provably >= length "+lt.String()
+						}
+					}
+					if !okLen && why == "length "+lt.String()+" is non-negative by construction" {
+						why = "length " + lt.String() + " is not provably non-negative"
+					}
+					o.check(okLen, why, why)
+				case *ssa.BinOp:
+					if (in.Op == token.EQL || in.Op == token.NEQ) && types.IsInterface(in.X.Type()) && types.IsInterface(in.Y.Type()) {
+						// == on two interface values panics when both hold the
+						// same uncomparable dynamic type ([]byte, []any, map):
+						// one side must be known to hold a comparable type
+						okX, whyX := P.comparableDyn(in.X)
+						okY, whyY := P.comparableDyn(in.Y)
+						if okX && whyX == "nil" || okY && whyY == "nil" {
+							continue
+						}
+						counts["ifacecmp"]++
+						o := r.ob(rule, mkKey(fn, "ifacecmp", P.terms.of(in.X).String()+in.Op.String()+P.terms.of(in.Y).String()), fn, in, "comparison of two interface values: one operand holds a comparable dynamic type")
+						switch {
+						case okX:
+							o.ok("left operand: "+whyX, true)
+						case okY:
+							o.ok("right operand: "+whyY, true)
+						case hasRecover:
+							o.ok("function recovers from panics", true)
+						default:
+							o.fail("both operands are interface values of unknown dynamic type (" + whyX + "; " + whyY + "): the comparison panics when both hold the same uncomparable type (byte string, array or map decoded from the input)")
+						}
+						continue
+					}
+					if in.Op != token.QUO && in.Op != token.REM {
+						continue
+					}
+					if b, ok := in.X.Type().Underlying().(*types.Basic); !ok || b.Info()&types.IsInteger == 0 {
+						continue
+					}
+					if c, ok := constIntOf(in.Y); ok && c != 0 {
+						continue
+					}
+					counts["div"]++
+					r.ob(rule, mkKey(fn, "div", P.terms.of(in.Y).String()), fn, in, "integer division by a non-zero divisor").fail("division by the non-constant " + P.terms.of(in.Y).String())
+				case *ssa.Panic:
+					counts["panic"]++
+					r.ob(rule, mkKey(fn, "panic", "explicit"), fn, in, "no explicit panic on an input-reachable path").fail("explicit panic in a function reachable from decoders / follow-up operations")
+				case *ssa.SliceToArrayPointer:
+					counts["slice2array"]++
+					r.ob(rule, mkKey(fn, "slice2array", P.terms.of(in.X).String()), fn, in, "slice-to-array conversion has enough elements").fail("slice-to-array-pointer conversion is not recognised by any guard")
+				case ssa.CallInstruction:
+					A.callSite(fn, in, hasRecover, mkKey, counts)
+				}
+			}
+		}
+	}
+}
+
+// comparableDyn: the interface value v is nil, or holds a dynamic type that
+// is known and comparable: a boxed basic/pointer value, or a package-level
+// error sentinel built by errors.New / fmt.Errorf (a pointer).
+func (P *Prog) comparableDyn(v ssa.Value) (bool, string) {
+	switch x := v.(type) {
+	case *ssa.Const:
+		if x.IsNil() {
+			return true, "nil"
+		}
+	case *ssa.MakeInterface:
+		switch t := x.X.Type().Underlying().(type) {
+		case *types.Basic, *types.Pointer:
+			return true, "boxed " + shortType(x.X.Type())
+		default:
+			_ = t
+			return false, "boxed " + shortType(x.X.Type())
+		}
+	case *ssa.ChangeInterface:
+		return P.comparableDyn(x.X)
+	case *ssa.Extract:
+		// result 0 of the label normaliser: a boxed int64 or a string (R13.7)
+		if c, ok := x.Tuple.(*ssa.Call); ok && x.Index == 0 && c.Call.StaticCallee() != nil && c.Call.StaticCallee() == P.labelNormalizer() {
+			return true, "a normalised label: boxed int64 or string (R13.7)"
+		}
+	case *ssa.UnOp:
+		if g, ok := x.X.(*ssa.Global); ok && x.Op == token.MUL && g.Pkg == P.SPkg {
+			n, okAll := 0, true
+			for _, f := range P.allFuncsInclInit() {
+				for _, b := range f.Blocks {
+					for _, in := range b.Instrs {
+						st, isSt := in.(*ssa.Store)
+						if !isSt || st.Addr != ssa.Value(g) {
+							continue
+						}
+						n++
+						c, isCall := st.Val.(*ssa.Call)
+						if !isCall || c.Call.StaticCallee() == nil {
+							okAll = false
+							continue
+						}
+						if nm := c.Call.StaticCallee().String(); nm != "errors.New" && nm != "fmt.Errorf" {
+							okAll = false
+						}
+					}
+				}
+			}
+			if n > 0 && okAll {
+				return true, "sentinel " + g.Name() + " (errors.New / fmt.Errorf: a pointer)"
+			}
+			return false, "package variable " + g.Name()
+		}
+	case *ssa.Phi:
+		all := len(x.Edges) > 0
+		for _, e := range x.Edges {
+			if e == v {
+				continue
+			}
+			if ok, _ := P.comparableDyn(e); !ok {
+				all = false
+			}
+		}
+		if all {
+			return true, "every incoming value is comparable"
+		}
+	}
+	return false, "dynamic type of " + truncate(P.terms.of(v).String(), 60) + " unknown"
+}
+
 func runC06(r *Report, tier string) {
 	P := r.P
 	r.rule("R06.1", "panic-site audit: in every function reachable from a decoding entry point or a follow-up operation, each instruction that can panic on its own (unchecked type assertion; slice/string index or re-slice; write to a possibly nil map; make with a computed length; integer division by a non-constant; explicit panic; external call with a precondition; method call on a pointer taken from a slice element) is discharged by a dominating fact on the same value (comma-ok / type-switch arm, length / prefix / well-formedness fact, nil check, successful lookup, full-range loop index, defer+recover, CanInt/Kind guard) or is reported.")
@@ -740,142 +974,7 @@ func runC06(r *Report, tier string) {
 		}
 		return k
 	}
-	for _, fn := range fns {
-		hasRecover := fn.Recover != nil
-		for _, b := range fn.Blocks {
-			for _, in := range b.Instrs {
-				switch in := in.(type) {
-				case *ssa.TypeAssert:
-					if in.CommaOk {
-						continue
-					}
-					counts["typeassert"]++
-					xt := P.terms.of(in.X)
-					o := r.ob("R06.1", mkKey(fn, "typeassert", shortType(in.AssertedType)+"<-"+xt.String()), fn, in, "type assertion without comma-ok is dominated by a successful check of the same value and type")
-					want := Fact{&Term{Op: "res", S: "1", Args: []*Term{{Op: "typeassert", S: shortType(in.AssertedType) + ",ok", Args: []*Term{xt}}}}, true}
-					fs := P.factsBefore(in)
-					switch {
-					case fs.has(want):
-						o.ok("fact "+want.String(), true)
-					case hasRecover:
-						o.ok("function recovers from panics (defer+recover)", true)
-					default:
-						o.fail("x.(T) on " + xt.String() + " with no dominating comma-ok assertion / type-switch arm / checking helper on the same value")
-					}
-				case *ssa.IndexAddr:
-					if pt, ok := in.X.Type().Underlying().(*types.Pointer); ok {
-						arr := pt.Elem().Underlying().(*types.Array)
-						if c, ok := constIntOf(in.Index); ok && c >= 0 && c < arr.Len() {
-							continue
-						}
-					}
-					counts["index"]++
-					xt := P.terms.of(in.X)
-					o := r.ob("R06.1", mkKey(fn, "index", xt.String()+"["+P.terms.of(in.Index).String()+"]"), fn, in, "index is within bounds on every path")
-					ok, why := A.indexSafe(in.X, in.Index, in)
-					if !ok && hasRecover {
-						ok, why = true, "function recovers from panics"
-					}
-					o.check(ok, why, why)
-				case *ssa.Index:
-					if arr, ok := in.X.Type().Underlying().(*types.Array); ok {
-						if c, ok := constIntOf(in.Index); ok && c >= 0 && c < arr.Len() {
-							continue
-						}
-					}
-					counts["index"]++
-					xt := P.terms.of(in.X)
-					o := r.ob("R06.1", mkKey(fn, "index", xt.String()+"["+P.terms.of(in.Index).String()+"]"), fn, in, "index is within bounds on every path")
-					ok, why := A.indexSafe(in.X, in.Index, in)
-					o.check(ok, why, why)
-				case *ssa.Lookup:
-					if _, isMap := in.X.Type().Underlying().(*types.Map); isMap {
-						continue
-					}
-					counts["index"]++
-					xt := P.terms.of(in.X)
-					o := r.ob("R06.1", mkKey(fn, "index", xt.String()+"["+P.terms.of(in.Index).String()+"]"), fn, in, "string index is within bounds on every path")
-					ok, why := A.indexSafe(in.X, in.Index, in)
-					o.check(ok, why, why)
-				case *ssa.Slice:
-					if _, isArrPtr := in.X.Type().Underlying().(*types.Pointer); isArrPtr && in.Low == nil && in.High == nil && in.Max == nil {
-						continue
-					}
-					counts["slice"]++
-					xt := P.terms.of(in.X)
-					lo, hi := "", ""
-					if in.Low != nil {
-						lo = P.terms.of(in.Low).String()
-					}
-					if in.High != nil {
-						hi = P.terms.of(in.High).String()
-					}
-					o := r.ob("R06.1", mkKey(fn, "slice", xt.String()+"["+lo+":"+hi+"]"), fn, in, "re-slice bounds are within the slice on every path")
-					ok, why := A.sliceSafe(in)
-					if !ok && hasRecover {
-						ok, why = true, "function recovers from panics"
-					}
-					o.check(ok, why, why)
-				case *ssa.MapUpdate:
-					counts["mapupdate"]++
-					mt := P.terms.of(in.Map)
-					A.mapWrite(fn, in, mt, mkKey)
-				case *ssa.MakeSlice:
-					if _, ok := constIntOf(in.Len); ok {
-						continue
-					}
-					counts["makeslice"]++
-					lt := P.terms.of(in.Len)
-					o := r.ob("R06.1", mkKey(fn, "makeslice", lt.String()), fn, in, "make with a computed length: the length is non-negative and not larger than the capacity")
-					okLen := nonNeg(lt)
-					why := "length " + lt.String() + " is non-negative by construction"
-					fs := P.factsBefore(in)
-					if !okLen && lt.Op == "binop" && lt.S == "-" {
-						// a - b under b < a (here, or at every caller of an unexported helper)
-						if A.diffNonNegCtx(fn, lt, fs, 0) {
-							okLen, why = true, "length "+lt.String()+" under the dominating comparison of its operands"
-						}
-					}
-					if !okLen && A.geCtx(fn, lt, fs, 0) {
-						okLen, why = true, "length "+lt.String()+" >= 0 follows from the dominating comparisons"
-					}
-					if okLen && in.Cap != in.Len && A.geCtx(fn, tSub(P.terms.of(in.Cap), lt), fs, 0) {
-						// capacity >= length by the same reasoning
-					} else if okLen && in.Cap != in.Len {
-						ct := P.terms.of(in.Cap)
-						// cap must be >= len: len = cap - x with x >= 0
-						if !(lt.Op == "binop" && lt.S == "-" && lt.Args[0].eq(ct) && nonNeg(lt.Args[1])) && !ct.eq(lt) {
-							okLen, why = false, "capacity "+ct.String()+" is not provably >= length "+lt.String()
-						}
-					}
-					if !okLen && why == "length "+lt.String()+" is non-negative by construction" {
-						why = "length " + lt.String() + " is not provably non-negative"
-					}
-					o.check(okLen, why, why)
-				case *ssa.BinOp:
-					if in.Op != token.QUO && in.Op != token.REM {
-						continue
-					}
-					if b, ok := in.X.Type().Underlying().(*types.Basic); !ok || b.Info()&types.IsInteger == 0 {
-						continue
-					}
-					if c, ok := constIntOf(in.Y); ok && c != 0 {
-						continue
-					}
-					counts["div"]++
-					r.ob("R06.1", mkKey(fn, "div", P.terms.of(in.Y).String()), fn, in, "integer division by a non-zero divisor").fail("division by the non-constant " + P.terms.of(in.Y).String())
-				case *ssa.Panic:
-					counts["panic"]++
-					r.ob("R06.1", mkKey(fn, "panic", "explicit"), fn, in, "no explicit panic on an input-reachable path").fail("explicit panic in a function reachable from decoders / follow-up operations")
-				case *ssa.SliceToArrayPointer:
-					counts["slice2array"]++
-					r.ob("R06.1", mkKey(fn, "slice2array", P.terms.of(in.X).String()), fn, in, "slice-to-array conversion has enough elements").fail("slice-to-array-pointer conversion is not recognised by any guard")
-				case ssa.CallInstruction:
-					A.callSite(fn, in, hasRecover, mkKey, counts)
-				}
-			}
-		}
-	}
+	A.auditPanicSites("R06.1", fns, mkKey, counts)
 	r.floorSoft("R06.1", counts["typeassert"], 3, "bare type assertions")
 	r.floorSoft("R06.1", counts["index"], 15, "index expressions")
 	r.floorSoft("R06.1", counts["slice"], 5, "re-slice expressions")
@@ -927,6 +1026,8 @@ func runC06(r *Report, tier string) {
 	// predicates that admit them must admit hashable kinds only
 	r.rule("R13.1", "(shared) the int / uint / tstr / bstr value predicates accept exactly their kind tables (no unhashable or foreign dynamic type slips through to a map index).")
 	checkValuePredicateKinds(r, "R13.1")
+	r.rule("R13.7", "(shared) label normalisation returns a boxed int64 or the string itself: two normalised labels can be compared and used as map keys.")
+	checkLabelNormalizer(r, "R13.7")
 	// MaxNestedLevels not raised on any decode mode
 	for _, mc := range P.modeConfigs() {
 		if mc.enc {
@@ -1355,6 +1456,8 @@ func (A *audit) cycleBounded(comp []*ssa.Function) (bool, string) {
 
 func mutC06() []mutant {
 	return []mutant{
+		{Name: "lookupLabel compares the raw map key with the raw label", File: "headers.go", Rule: "R06.1", Key: "ifacecmp",
+			Old: "\t\tif got, ok := normalizeLabel(k); ok && got == want {", New: "\t\tif got, ok := normalizeLabel(k); ok && (got == want || k == label) {"},
 		{Name: "D1 re-created: Key.UnmarshalCBOR asserts the curve value without comma-ok", File: "key.go", Quick: true, Rule: "R06.1",
 			Old: "\t\t\t\t\tcrv, ok := v.(int64)\n\t\t\t\t\tif !ok {\n\t\t\t\t\t\treturn fmt.Errorf(\"crv: invalid type: expected int64, got %T\", v)\n\t\t\t\t\t}\n\t\t\t\t\tv = Curve(crv)",
 			New: "\t\t\t\t\tv = Curve(v.(int64))"},
